@@ -222,6 +222,20 @@ class LaunchMethod(object):
 
     # --------------------------------------------------------------------------
     #
+    def _signal_task(self, pid, sig):
+        '''
+        Signal the process group of the task's launch process.  If that process
+        does not lead a process group of its own (`new_session_per_task` is
+        disabled), the group is the one of the agent: signal only the launch
+        process then.
+        '''
+
+        if os.getpgid(pid) == pid: os.killpg(pid, sig)
+        else                     : os.kill(pid, sig)
+
+
+    # --------------------------------------------------------------------------
+    #
     def cancel_task(self, task, pid):
         '''
         This method cancels the task, in the default case by killing the task's
@@ -231,13 +245,13 @@ class LaunchMethod(object):
         # kill the process group which should include the actual launch method
         try:
             self._log.debug('killing task %s (%d)', task['uid'], pid)
-            os.killpg(pid, signal.SIGTERM)
+            self._signal_task(pid, signal.SIGTERM)
 
             # also send a SIGKILL to drive the message home.
             # NOTE: the `sleep` will limit the cancel throughput!
             try:
                 time.sleep(0.1)
-                os.killpg(pid, signal.SIGKILL)
+                self._signal_task(pid, signal.SIGKILL)
             except OSError:
                 pass
 
